@@ -39,6 +39,6 @@ def decreaseMTSupply_supply_2 (supply : Nat) (amount : Nat) : Option (Nat) := do
 def untranslated : List String := []
 
 /-- names of the translated definitions -/
-def translated : List String := ["AddBalance_balance_1", "AddBalance_balance_2", "AddBalance_guard_1", "SubBalance_balance_1", "SubBalance_balance_2", "IncreaseMTSupply_supply_1", "IncreaseMTSupply_supply_2", "IncreaseMTSupply_guard_1", "decreaseMTSupply_supply_1", "decreaseMTSupply_supply_2"]
+def translated : List String := ["AddBalance_balance_1(read_k_GetBalance_ctx_denomID_mtID_addr)", "AddBalance_balance_2(balance,amount)", "AddBalance_guard_1(balance,amount)", "SubBalance_balance_1(read_k_GetBalance_ctx_denomID_mtID_addr)", "SubBalance_balance_2(balance,amount)", "IncreaseMTSupply_supply_1(read_k_GetMTSupply_ctx_denomID_mtID)", "IncreaseMTSupply_supply_2(supply,amount)", "IncreaseMTSupply_guard_1(supply,amount)", "decreaseMTSupply_supply_1(read_k_GetMTSupply_ctx_denomID_mtID)", "decreaseMTSupply_supply_2(supply,amount)"]
 
 end Irismod.Gen.PureMt
